@@ -167,8 +167,28 @@ def build(features=()):
     # ---- Clone / PartialEq ----------------------------------------------------------------------------------
     u.impl(cr, 'hc128::Clone@Hc128Core', header='impl Clone for Hc128Core', fns=['clone'], contracts={
         'clone': Fn(None, ret='r', builtin_props='C14', ensures=[C('hc128.core.clone.all_fields', 'C10', 'r.t@ =~= self.t@ && r.counter1024 == self.counter1024')])})
-    u.skip('hc128::PartialEq@Hc128Core::eq', 'compares `&self.t[..] == &rhs.t[..]` (slice PartialEq has no vstd specification); decided by Kani harness hc128_core_eq (C10)')
-    u.skip('hc128::Hc128Rng (all impls)', 'thin wrappers over rand_core::block::BlockRng (dependency code): Kani harnesses (C05, C09, C10)')
+    u.raw('impl vstd::std_specs::cmp::PartialEqSpecImpl for Hc128Core {\n'
+          '    open spec fn obeys_eq_spec() -> bool { true }\n'
+          '    open spec fn eq_spec(&self, other: &Hc128Core) -> bool { self.t@ =~= other.t@ && self.counter1024 == other.counter1024 }\n}')
+    u.impl(cr, 'hc128::PartialEq@Hc128Core', header='impl PartialEq for Hc128Core', fns=['eq'], contracts={
+        'eq': Fn(None, ret='r', builtin_props='C14', trait_props='C10', ensures=[
+            C('hc128.core.eq.iff_all_fields', 'C10', 'r == (self.t@ =~= rhs.t@ && self.counter1024 == rhs.counter1024)')],
+            inserts=[entry('proof { assert(self.t@.subrange(0, 1024) =~= self.t@); assert(rhs.t@.subrange(0, 1024) =~= rhs.t@); }')])})
+    # Hc128Rng::eq over a stand-in for rand_core::block::BlockRng (pub field `core`, getter `index()`; T5)
+    u.raw('''
+// T5 stand-in: the two things Hc128Rng::eq uses of rand_core::block::BlockRng - the public field `core` and the read
+// position `index()`.  (BlockRng's own behaviour is decided by the Kani harnesses blockrng_* on the real rand_core.)
+pub struct BlockRng<R> { pub core: R, pub idx: usize }
+impl<R> BlockRng<R> { pub fn index(&self) -> (r: usize) ensures r == self.idx { self.idx } }
+pub struct Hc128Rng(pub BlockRng<Hc128Core>);
+impl vstd::std_specs::cmp::PartialEqSpecImpl for Hc128Rng {
+    open spec fn obeys_eq_spec() -> bool { true }
+    open spec fn eq_spec(&self, other: &Hc128Rng) -> bool { self.0.core.t@ =~= other.0.core.t@ && self.0.core.counter1024 == other.0.core.counter1024 && self.0.idx == other.0.idx }
+}''')
+    u.impl(cr, 'hc128::PartialEq@Hc128Rng', header='impl PartialEq for Hc128Rng', fns=['eq'], contracts={
+        'eq': Fn(None, ret='r', builtin_props='C14', trait_props='C10', ensures=[
+            C('hc128.rng.eq.core_and_index', 'C10', 'r == (self.0.core.t@ =~= rhs.0.core.t@ && self.0.core.counter1024 == rhs.0.core.counter1024 && self.0.idx == rhs.0.idx)')])})
+    u.skip('hc128::Hc128Rng (RngCore, SeedableRng, Clone, Debug)', 'thin wrappers over rand_core::block::BlockRng (dependency code): Kani harnesses (C05, C09, C17)')
     u.skip('hc128::Debug@Hc128Core::fmt', 'formatting; C17 by Kani')
     u.raw('}')
     return u
